@@ -334,7 +334,7 @@ def compare(ctx, prop, cases, impl, model, nontrivial=None, shrink=None):
 
 # ---------------------------------------------------------------- finish
 def write_replay(ctx, v, idx):
-    d = os.path.join(VERIF, "replays", ctx.prop)
+    d = os.path.join(os.environ.get("VERIF_REPLAY_DIR", os.path.join(VERIF, "replays")), ctx.prop)
     os.makedirs(d, exist_ok=True)
     path = os.path.join(d, "%d_%d.json" % (int(ctx.t0), idx))
     v = dict(v)
@@ -363,8 +363,10 @@ def finish(ctx, level="proof", trusted=None, assumptions=None, rule=""):
         "violations": len(ctx.violations),
         "known_findings_seen": ctx.known_lines, "notes": ctx.notes,
     }
-    os.makedirs(os.path.join(VERIF, "evidence"), exist_ok=True)
-    json.dump(ev, open(os.path.join(VERIF, "evidence", ctx.prop + ".json"), "w"), indent=1)
+    # (bin/seedtest redirects evidence and replays of runs against a deliberately broken copy to a scratch directory)
+    evdir = os.environ.get("VERIF_EVIDENCE_DIR", os.path.join(VERIF, "evidence"))
+    os.makedirs(evdir, exist_ok=True)
+    json.dump(ev, open(os.path.join(evdir, ctx.prop + ".json"), "w"), indent=1)
     for l in ctx.known_lines:
         print(l)
     rc = 0
